@@ -243,7 +243,7 @@ func c04Layout(sh c04Shape) (c2s, s2c []int, err error) {
 func C04Plan() *vlib.Plan {
 	p := &vlib.Plan{
 		Property: "C04", Level: "fault_enumeration",
-		Rule:   "E-FAULT: for each handshake shape (no authentication, CLAIMTOBE, TOKEN, resumed session, session resumed by a scripted requester that asks for no reply - cleartext in one direction only; both sides REQUIRE encryption) a pre-pass records the cleartext frame layout; then one fault per run through a relay between two real endpoints: every byte offset of every cleartext frame (header and payload) x substitutes, an empty frame (flag 0 / 1) inserted before every frame, every frame removed / duplicated / split at its midpoint, every adjacent same-direction pair merged. Application phase: three messages each way and receivers that carry on after a receive error. Oracle: fault applied and any application message accepted by either side => violation. Non-trivial = the fault was applied to a live frame (distinct (shape, direction, frame, fault) by construction).",
+		Rule:   "E-FAULT: for each handshake shape (no authentication, CLAIMTOBE, TOKEN, resumed session, session resumed by a scripted requester that asks for no reply - cleartext in one direction only; both sides REQUIRE encryption) a pre-pass records the cleartext frame layout; then one fault per run through a relay between two real endpoints: every byte offset of every cleartext frame (header and payload) x substitutes (the end-of-message flag byte x 7 substitute values), an empty frame (flag 0 / 1) inserted before every frame, every frame removed / duplicated / split at its midpoint, every adjacent same-direction pair merged. Application phase: three messages each way and receivers that carry on after a receive error. Oracle: fault applied and any application message accepted by either side => violation. Non-trivial = the fault was applied to a live frame (distinct (shape, direction, frame, fault) by construction).",
 		Assume: []string{"frame layout of the cleartext path is value-independent (lengths recorded in the pre-pass; offsets beyond a live frame are counted as skipped)", "session ids / ECDH keys / nonces are random per run: faults are addressed by position, not value"},
 	}
 	p.Gen = func(tier string, yield func(vlib.Case)) {
@@ -332,7 +332,13 @@ func C04Plan() *vlib.Plan {
 				dir := []string{"c2s", "s2c"}[di]
 				for fi, l := range lens {
 					for off := 0; off < l+2; off++ {
-						for _, m := range masks {
+						ms := masks
+						if off == 0 {
+							// the end-of-message flag: every other value a receiver might still read
+							// as "end" (1 -> 2, 3, 10, 11, 255) or as "more" (1 -> 0)
+							ms = []byte{0x01, 0x03, 0x02, 0x0b, 0x0a, 0xfe, 0x80}
+						}
+						for _, m := range ms {
 							flt := c04Fault{dir: dir, frame: fi, kind: "flip", off: off, mask: m}
 							yield(vlib.Case{ID: sh.name + "/" + flt.String(), Run: func() *vlib.Result { return judge(flt) }})
 						}
